@@ -120,6 +120,7 @@ type Ctx struct {
 	capHit      atomic.Bool
 	stretched   atomic.Bool
 	procs       atomic.Int32 // GOMAXPROCS set by WithProcs (0: the default)
+	escaped     []escapedPanic
 	internalErr []string
 	notes       []string
 }
@@ -197,6 +198,57 @@ func loadFactor() float64 {
 }
 
 func (c *Ctx) CapHit() bool { return c.capHit.Load() }
+
+// Escaped records a panic of the library that escaped from a call the harness made outside any
+// guarded case (origin frame in the library; see LibraryPanicOrigin).  It becomes a violation of its
+// own; the check goes on or, if it cannot, still reports what it found.
+func (c *Ctx) Escaped(msg, where, stack string) {
+	c.mu.Lock()
+	c.escaped = append(c.escaped, escapedPanic{msg, where, stack})
+	c.mu.Unlock()
+}
+
+type escapedPanic struct{ Msg, Where, Stack string }
+
+// LibraryPanicOrigin looks at a stack taken in a deferred recover: it returns the frame in which the
+// panic originated and whether that frame belongs to the library under test (not to the harness, the
+// shims or the runtime's own panic helpers).
+func LibraryPanicOrigin(stack string) (where string, lib bool) {
+	lines := strings.Split(stack, "\n")
+	seenPanic := false
+	for _, l := range lines {
+		t := strings.TrimSpace(l)
+		if strings.HasPrefix(t, "panic(") {
+			seenPanic = true
+			continue
+		}
+		if !seenPanic || t == "" || strings.HasPrefix(t, "/") || strings.HasPrefix(t, "runtime.") || strings.HasPrefix(t, "goroutine ") {
+			continue
+		}
+		// first function frame below the panic call
+		where = t
+		lib = strings.HasPrefix(t, "pipelined.dev/signal.") || (strings.HasPrefix(t, "pipelined.dev/signal/") && !strings.Contains(t, "/verif"))
+		return
+	}
+	return "", false
+}
+
+// Protect runs f; a panic that originates in the library is recorded with Escaped, any other panic
+// is re-raised (an error of the harness).
+func (c *Ctx) Protect(f func()) {
+	defer func() {
+		if r := recover(); r != nil {
+			buf := make([]byte, 16384)
+			buf = buf[:runtime.Stack(buf, false)]
+			where, lib := LibraryPanicOrigin(string(buf))
+			if !lib {
+				panic(r)
+			}
+			c.Escaped(fmt.Sprint(r), where, string(buf))
+		}
+	}()
+	f()
+}
 
 // MarkCapped records that a part of the check (a worker process) stopped at its time cap.
 func (c *Ctx) MarkCapped() { c.capHit.Store(true) }
@@ -444,6 +496,18 @@ func (c *Ctx) Finish() int {
 		}
 		lines = append(lines, fmt.Sprintf("VIOLATION property=%s replay=%s key=%s count=%d%s :: %s", id, path, key, r.count, extra, r.fails[0].Msg))
 	}
+	// panics of the library that escaped from calls outside any guarded case
+	if len(c.escaped) > 0 {
+		e := c.escaped[0]
+		key := id + "/library-panic"
+		h := sha256.Sum256([]byte(id + "\x00" + key))
+		path := filepath.Join(Root, "replays", id+"-"+hex.EncodeToString(h[:6])+".json")
+		b, _ := json.MarshalIndent(map[string]any{"property": id, "key": key, "count": len(c.escaped), "panic": e.Msg, "origin": e.Where, "stack": e.Stack, "tier": c.Tier,
+			"note": "the library panicked on a valid call that the harness made while preparing or inspecting its configurations; not a recorded case: run the check again to see it"}, "", " ")
+		os.WriteFile(path, b, 0o644)
+		nviol++
+		lines = append(lines, fmt.Sprintf("VIOLATION property=%s replay=%s key=%s count=%d :: the library panicked on a valid call made by the harness: %s (in %s)", id, path, key, len(c.escaped), e.Msg, e.Where))
+	}
 	for _, k := range c.known {
 		if k.hits > 0 {
 			rg := ""
@@ -657,7 +721,7 @@ func (c *Ctx) ParallelFor(n int, f func(i int)) {
 				if c.Expired() {
 					return
 				}
-				f(i)
+				c.Protect(func() { f(i) })
 			}
 		}()
 	}
